@@ -37,8 +37,16 @@ def Opt(t):
     return ("Opt", t)
 
 
+def Tup(a, b):
+    return ("Tup", (a, b))
+
+
+SATCLASS, SATOBJ, SATPROFILE, SATENTRY = "SatClass", "SatObj", "SatProfile", "SatEntry"
+
+
 GTY = {Q: "Q", B: "bool", PROJ: "py_proj", INST: "py_inst", PROFILE: "py_profile", BALLOT: "py_ballot",
-       PBALLOT: "py_pballot", APROFILE: "py_aprofile", DICT: "py_dict", STR: "string"}
+       PBALLOT: "py_pballot", APROFILE: "py_aprofile", DICT: "py_dict", STR: "string",
+       "SatClass": "py_satclass", "SatObj": "py_satobj", "SatProfile": "py_satprofile", "SatEntry": "py_satentry"}
 
 
 def gty(t):
@@ -47,7 +55,11 @@ def gty(t):
             return GTY[t]
         raise Unsupported("no Gallina type for %s" % t)
     if t[0] == "List":
+        if t[1] is None:
+            raise Unsupported("a list whose element type is never determined")
         return "(list %s)" % gty(t[1])
+    if t[0] == "Tup":
+        return "(%s * %s)%%type" % (gty(t[1][0]), gty(t[1][1]))
     if t[0] == "Opt":
         return "(option %s)" % gty(t[1])
     if t[0] == "Fun":
@@ -66,6 +78,14 @@ class V:
         self.term, self.ty, self.const, self.macro = term, ty, const, macro
 
 
+class Taken:
+    def __init__(self, cond, binds):
+        self.cond, self.binds = cond, binds
+
+    def __bool__(self):
+        return bool(self.cond or self.binds)
+
+
 class Macro:
     """a lambda / nested def: inlined at its call sites (the fragment is pure, so this preserves meaning)"""
 
@@ -74,12 +94,13 @@ class Macro:
 
 
 class Ctx:
-    def __init__(self, ret, fall, brk=None, cont=None, rtype=None):
+    def __init__(self, ret, fall, brk=None, cont=None, rtype=None, fail=None):
         self.ret, self.fall, self.brk, self.cont = ret, fall, brk, cont
         self.rtype = rtype        # Gallina type of what `ret` produces (annotation of the loop state)
+        self.fail = fail or (lambda: "false")   # safety mode: what a violated obligation evaluates to
 
     def with_fall(self, fall):
-        return Ctx(self.ret, fall, self.brk, self.cont, self.rtype)
+        return Ctx(self.ret, fall, self.brk, self.cont, self.rtype, self.fail)
 
 
 def _is_doc(s):
@@ -101,7 +122,7 @@ def _walk_no_defs(nodes, stop_loops=False):
 
 
 def gname(name):
-    return "v_" + name
+    return "yielded" if name == "$yield" else "v_" + name
 
 
 def qlit(n):
@@ -132,19 +153,35 @@ class FuncTranslator:
         self.pending = []
         self.guards = []
         self.no_div = 0
+        self.ob_count = 0        # number of obligations registered (0: the function cannot violate any)
+        self.binds = []          # (name, call) of calls of translated functions that may raise, in evaluation order
+        self.list_hints = {}     # element type of `x = []`, learnt from the first x.append(e)
 
     def take(self):
+        """the obligations (and calls of functions that may raise) registered by the expression just translated"""
         c, self.pending = self.pending, []
-        return " && ".join(c)
+        b, self.binds = self.binds, []
+        self.ob_count += len(c)
+        return Taken(" && ".join(c), b)
 
-    def wrap(self, cond, term):
-        return "(%s && %s)" % (cond, term) if (self.safety and cond) else term
+    def wrap(self, taken, term, ctx=None):
+        """term, evaluated after the calls that may raise (their None propagates) and -- in safety mode -- only
+        if the obligations hold"""
+        if self.safety and taken.cond:
+            term = "(if %s then %s else %s)" % (taken.cond, term, ctx.fail() if ctx else "false")
+        for name, call in reversed(taken.binds):
+            none = ctx.ret(V("None", "Raise")) if ctx else "None"
+            term = "match %s with Some %s => %s | None => %s end" % (call, name, term, none)
+        return term
 
     # ---------------- expressions ----------------
     def inst(self, env):
         v = env.get("$inst")
         if v is None:
-            raise Unsupported("project.cost / total_cost needs the instance, none in scope")
+            # a module-level function that reads project.cost without an instance in scope: the instance the
+            # projects belong to becomes an extra leading parameter
+            self.extras["cinst"] = "py_inst"
+            return V("cinst", INST)
         return v
 
     def tobool(self, v):
@@ -170,6 +207,10 @@ class FuncTranslator:
             return V("(py_profile_iter %s)" % v.term, List(PBALLOT))
         if t == INST:
             return V("(py_instance_iter %s)" % v.term, List(PROJ))
+        if t == SATPROFILE:
+            return V("(py_satprofile_iter %s)" % v.term, List(SATENTRY))
+        if isinstance(t, tuple) and t[0] == "Tup" and t[1][0] == t[1][1]:
+            return V("[fst %s; snd %s]" % (v.term, v.term), List(t[1][0]))
         raise Unsupported("iteration over a %r" % (t,))
 
     def num(self, v):
@@ -183,6 +224,7 @@ class FuncTranslator:
         m = getattr(self, "e_" + type(n).__name__, None)
         if m is None:
             raise Unsupported("expression %s outside the fragment" % type(n).__name__)
+        self.ambient_env = env
         return m(n, env)
 
     def e_Name(self, n, env):
@@ -195,6 +237,13 @@ class FuncTranslator:
         g = self.W.global_value(n.id, self)
         if g is not None:
             return g
+        h = self.W.helper_macro(n.id)
+        if h is not None:
+            return h
+        if n.id in self.W.sat_class_names():
+            # a satisfaction class used as a value: an opaque parameter (instance, profile, ballot) -> sat
+            self.extras["cls_" + n.id] = "py_satclass"
+            return V("cls_" + n.id, SATCLASS)
         raise Unsupported("unknown name %s" % n.id)
 
     def e_Constant(self, n, env):
@@ -216,7 +265,8 @@ class FuncTranslator:
         return f
 
     def e_Attribute(self, n, env):
-        if isinstance(n.value, ast.Name) and n.value.id == "self" and "$self" in env:
+        if isinstance(n.value, ast.Name) and n.value.id == "self" and "$self" in env and (
+                n.attr in env["$self"] or "self" not in env):
             return self.self_field(n.attr, env)
         o = self.expr(n.value, env)
         if o.ty == PROJ and n.attr == "cost":
@@ -332,12 +382,22 @@ class FuncTranslator:
         if len(n.generators) != 1:
             raise Unsupported("comprehension with several `for`")
         g = n.generators[0]
-        if g.is_async or not isinstance(g.target, ast.Name):
+        if g.is_async:
             raise Unsupported("comprehension target outside the fragment")
         it = self.to_list(self.expr(g.iter, env))
-        x = g.target.id
         env2 = dict(env)
-        env2[x] = V(gname(x), it.ty[1])
+        if isinstance(g.target, ast.Tuple) and len(g.target.elts) == 2 and all(
+                isinstance(e, ast.Name) for e in g.target.elts) and isinstance(it.ty[1], tuple) and it.ty[1][0] == "Tup":
+            # for i, v in pairs: the bound variable is the pair, the names are its projections
+            x = "pr%d" % self._fresh()
+            env2[x] = V(gname(x), it.ty[1])
+            env2[g.target.elts[0].id] = V("(fst %s)" % gname(x), it.ty[1][1][0])
+            env2[g.target.elts[1].id] = V("(snd %s)" % gname(x), it.ty[1][1][1])
+        elif isinstance(g.target, ast.Name):
+            x = g.target.id
+            env2[x] = V(gname(x), it.ty[1])
+        else:
+            raise Unsupported("comprehension target outside the fragment")
         src = it.term
         self.no_div += 1
         try:
@@ -364,12 +424,20 @@ class FuncTranslator:
     def e_List(self, n, env):
         vs = [self.expr(x, env) for x in n.elts]
         if not vs:
-            raise Unsupported("empty list literal (element type unknown)")
+            return V("[]", List(None))     # element type: learnt from the first append (see bind)
         if any(v.ty != vs[0].ty for v in vs):
             vs = [self.num(v) for v in vs]
         return V("[" + "; ".join(v.term for v in vs) + "]", List(vs[0].ty))
 
-    e_Tuple = e_List
+    def e_Tuple(self, n, env):
+        if len(n.elts) == 2:       # a pair (value, multiplicity), (index, value) ...
+            a, b = self.expr(n.elts[0], env), self.expr(n.elts[1], env)
+            if a.ty == B:
+                a = self.num(a)
+            if b.ty == B:
+                b = self.num(b)
+            return V("(%s, %s)" % (a.term, b.term), Tup(a.ty, b.ty))
+        return self.e_List(n, env)
 
     def e_Dict(self, n, env):
         items = []
@@ -400,6 +468,9 @@ class FuncTranslator:
             k = self.expr(n.slice, env)
             if k.ty == PROJ:
                 return V("(py_ballot_getitem %s %s)" % (o.term, k.term), Q)
+        if isinstance(o.ty, tuple) and o.ty[0] == "Tup" and isinstance(n.slice, ast.Constant) \
+                and n.slice.value in (0, 1) and not isinstance(n.slice.value, bool):
+            return V("(%s %s)" % ("fst" if n.slice.value == 0 else "snd", o.term), o.ty[1][n.slice.value])
         if isinstance(o.ty, tuple) and o.ty[0] == "List" and isinstance(n.slice, ast.Constant) \
                 and isinstance(n.slice.value, int) and not isinstance(n.slice.value, bool) and n.slice.value >= 0:
             return V("(py_index %s %d%%nat)" % (o.term, n.slice.value), Opt(o.ty[1]))
@@ -409,6 +480,9 @@ class FuncTranslator:
         if len(args) != len(m.params):
             raise Unsupported("call of a local function with the wrong number of arguments")
         env2 = dict(m.env)
+        amb = getattr(self, "ambient_env", None) or {}
+        if "$inst" not in env2 and "$inst" in amb:
+            env2["$inst"] = amb["$inst"]     # a module-level helper reads project.cost in the caller's instance
         for p, a in zip(m.params, args):
             env2[p] = a
         body = m.body
@@ -422,6 +496,11 @@ class FuncTranslator:
     def apply_fun(self, f, args):
         if f.ty == "Macro":
             return self.apply_macro(f.macro, args)
+        if f.ty == SATCLASS:      # sat_class(instance, profile, ballot): the measure object = its sat function
+            if len(args) != 3:
+                raise Unsupported("a satisfaction class is called with (instance, profile, ballot)")
+            ts = [self.coerce(a, t).term for a, t in zip(args, (INST, PROFILE, PBALLOT))]
+            return V("(%s %s)" % (f.term, " ".join(ts)), SATOBJ)
         if not (isinstance(f.ty, tuple) and f.ty[0] == "Fun"):
             raise Unsupported("call of something that is not a function")
         if len(args) != len(f.ty[1]):
@@ -429,17 +508,39 @@ class FuncTranslator:
         ts = []
         for a, t in zip(args, f.ty[1]):
             ts.append(self.coerce(a, t).term)
-        return V("(%s %s)" % (f.term, " ".join(ts)), f.ty[2])
+        call = "(%s %s)" % (f.term, " ".join(ts))
+        d = getattr(f, "defn", None)
+        if d is not None and d.safe_body is not None and not d.safe_trivial:
+            if self.no_div:
+                raise Unsupported("call of %s (which can raise) inside a comprehension or local function" % d.name)
+            ob = "(%s_safe %s %s)" % (d.name, " ".join(sorted(d.extras)), " ".join(ts))
+            if self.guards:
+                ob = "(negb (%s) || %s)" % (" && ".join(self.guards), ob)
+            self.pending.append(ob)
+        rt = f.ty[2]
+        if d is not None and isinstance(rt, tuple) and rt[0] == "Opt" and d.raises:
+            # the callee can raise: its None propagates (bound by the statement that consumes this expression)
+            if self.guards or self.no_div:
+                raise Unsupported("call of %s (which can raise) under a condition" % d.name)
+            self.option_mode_needed()
+            nm = "r%d" % self._fresh()
+            self.binds.append((nm, call))
+            return V(nm, rt[1])
+        return V(call, rt)
 
     def coerce(self, a, t):
         if a.ty == t:
             return a
         if t == Q:
             return self.num(a)
+        if isinstance(t, tuple) and t[0] == "List" and a.ty == List(None):
+            return V("(@nil %s)" % gty(t[1]), t)
         if isinstance(t, tuple) and t[0] == "List":
             l = self.to_list(a)
             if l.ty == t:
                 return l
+            if l.ty == List(B) and t == List(Q):
+                return V("(map py_int_of_bool %s)" % l.term, t)
         if isinstance(t, tuple) and t[0] == "Fun" and a.ty == "Macro":
             # eta-expand the local function at the expected type
             names = ["x%d_%d" % (self._fresh(), i) for i in range(len(t[1]))]
@@ -474,10 +575,40 @@ class FuncTranslator:
                         raise Unsupported("keyword arguments in a call of self.%s" % f.attr)
                     return self.apply_fun(self.self_field(f.attr, env), [self.expr(a, env) for a in n.args])
                 return self.W.call_method(self, env, f.attr, n)
+            if isinstance(f.value, ast.Name) and f.value.id not in env and not n.keywords:
+                # module-qualified vocabulary
+                q = f.value.id + "." + f.attr
+                if q == "chain.from_iterable" and len(n.args) == 1:
+                    x = self.expr(n.args[0], env)
+                    if not (isinstance(x.ty, tuple) and x.ty[0] == "List" and isinstance(x.ty[1], tuple)
+                            and x.ty[1][0] == "List"):
+                        raise Unsupported("chain.from_iterable of something that is not a sequence of sequences")
+                    return V("(py_chain %s)" % x.term, x.ty[1])
+                if q == "np.array" and len(n.args) == 1:      # an array of exact numbers is the list of them
+                    return self.to_list(self.expr(n.args[0], env))
+                if q == "np.median" and len(n.args) == 1:
+                    x = self.coerce(self.expr(n.args[0], env), List(Q))
+                    return V("(py_np_median %s)" % x.term, Q)
+                if f.value.id in ("np", "math", "chain"):
+                    raise Unsupported("call of %s outside the fragment" % q)
             o = self.expr(f.value, env)
             args = [self.expr(a, env) for a in n.args]
             if n.keywords:
                 raise Unsupported("keyword arguments in a method call")
+            if o.ty == SATOBJ and f.attr == "sat" and len(args) == 1:
+                return V("(%s %s)" % (o.term, self.coerce(args[0], List(PROJ)).term), Q)
+            if o.ty == SATENTRY and f.attr == "sat" and len(args) == 1:
+                return V("(fst %s %s)" % (o.term, self.coerce(args[0], List(PROJ)).term), Q)
+            if o.ty == SATPROFILE and f.attr == "multiplicity" and len(args) == 1 and args[0].ty == SATENTRY:
+                return V("(py_satprofile_multiplicity %s %s)" % (o.term, args[0].term), Q)
+            if o.ty == PROFILE and f.attr == "as_sat_profile" and len(args) == 1 and args[0].ty == SATCLASS:
+                return V("(py_as_sat_profile %s %s %s)" % (self.inst(env).term, o.term, args[0].term), SATPROFILE)
+            if o.ty == PROFILE and f.attr == "num_ballots" and not args:
+                return V("(py_num_ballots %s)" % o.term, Q)
+            if o.ty == PROFILE and f.attr == "approval_score" and len(args) == 1 and args[0].ty == PROJ:
+                return V("(py_profile_approval_score %s %s)" % (o.term, args[0].term), Q)
+            if o.ty == PROFILE and f.attr == "total_score" and len(args) == 1 and args[0].ty == PROJ:
+                return V("(py_profile_total_score %s %s)" % (o.term, args[0].term), Q)
             if o.ty == CACHE and f.attr == "get" and len(args) in (1, 2):
                 k = ast.unparse(n.args[0])
                 if k in o.macro:
@@ -508,8 +639,10 @@ class FuncTranslator:
                 raise Unsupported("sorted with several positional arguments")
             xs = self.to_list(self.expr(n.args[0], env))
             if "key" not in kws:
+                if xs.ty == List(Q):
+                    return V("(py_sorted_nums %s)" % xs.term, xs.ty)
                 if xs.ty != List(PROJ):
-                    raise Unsupported("sorted without key on something else than projects")
+                    raise Unsupported("sorted without key on something else than projects or numbers")
                 return V("(py_sorted_projects %s)" % xs.term, xs.ty)
             kf = self.expr(kws["key"], env)
             kf = self.coerce(kf, Fun([xs.ty[1]], Q))
@@ -537,10 +670,36 @@ class FuncTranslator:
                         isinstance(s, (ast.List, ast.Tuple)) and s.elts for s in (a.left, a.right)) \
                         or isinstance(a, (ast.List, ast.Tuple)) and a.elts:
                     return V("(py_%s_list %s 0)" % (name, xs.term), Q)
-            raise Unsupported("%s(...) of this shape is outside the fragment (empty sequence would raise)" % name)
+                if not kws:
+                    # ValueError on an empty sequence: an obligation like division by zero
+                    if self.no_div:
+                        raise Unsupported("%s of a possibly empty sequence inside a comprehension" % name)
+                    ob = "(negb (py_is_empty %s))" % xs.term
+                    if self.guards:
+                        ob = "(negb (%s) || %s)" % (" && ".join(self.guards), ob)
+                    self.pending.append(ob)
+                    return V("(py_%s_list %s 0)" % (name, xs.term), Q)
+            raise Unsupported("%s(...) of this shape is outside the fragment" % name)
         if n.keywords:
             raise Unsupported("keyword arguments in a call of %s" % name)
+        if name == "isinstance" and len(n.args) == 2 and isinstance(n.args[1], ast.Name) and n.args[1].id == "tuple":
+            x = self.expr(n.args[0], env)          # decided by the type of the sequence the value comes from
+            ist = isinstance(x.ty, tuple) and x.ty[0] == "Tup"
+            return V("true" if ist else "false", B, const=ist)
         args = [self.expr(a, env) for a in n.args]
+        if name == "enumerate" and len(args) == 1:
+            xs = self.to_list(args[0])
+            return V("(py_enumerate %s)" % xs.term, List(Tup(Q, xs.ty[1])))
+        if name == "range" and len(args) == 1:
+            return V("(py_range %s)" % self.num(args[0]).term, List(Q))
+        if name == "combinations" and len(args) == 2:
+            xs = self.to_list(args[0])
+            return V("(py_combinations %s %s)" % (xs.term, self.num(args[1]).term), List(xs.ty))
+        if name == "float" and len(args) == 1 and args[0].ty == Q:
+            # only the result of np.median: the exact value that is then rounded to a double
+            if not args[0].term.startswith("(py_np_median "):
+                raise Unsupported("call of float outside the fragment")
+            return V("(py_float %s)" % args[0].term, Q)
         if name == "int" and len(args) == 1:
             if args[0].ty == B:
                 return V("(py_int_of_bool %s)" % args[0].term, Q)
@@ -551,6 +710,8 @@ class FuncTranslator:
             a = args[0]
             if a.ty == BALLOT:
                 return V("(py_len_ballot %s)" % a.term, Q)
+            if a.ty == PBALLOT:
+                return V("(py_len_pballot %s)" % a.term, Q)
             if a.ty == PROFILE:
                 return V("(py_len_profile %s)" % a.term, Q)
             if a.ty == INST:
@@ -580,8 +741,8 @@ class FuncTranslator:
         if name == "frac":
             if len(args) == 2:
                 if self.no_div:
-                    raise Unsupported("division inside a loop, comprehension or local function (ZeroDivisionError is "
-                                      "only tracked on straight-line paths)")
+                    raise Unsupported("division inside a comprehension or local function (ZeroDivisionError is only "
+                                      "tracked in statements)")
                 den = self.num(args[1]).term
                 ob = "(py_truth %s)" % den
                 if self.guards:
@@ -599,9 +760,25 @@ class FuncTranslator:
             self.extras["orc"] = "py_oracle"
             return V("(py_max_budget_allocation_cost orc %s %s %s)" % (
                 self.inst(env).term, self.coerce(args[0], List(PROJ)).term, self.num(args[1]).term), Q)
-        g = self.W.global_value(name, self)
-        if g is not None:
-            return self.apply_fun(g, args)
+        h = self.W.helper_macro(name) if not self.W.variants(name) else None
+        if h is not None:
+            return self.apply_fun(h, args)
+        vs = self.W.variants(name)
+        err = None
+        for i, fn in enumerate(vs):
+            g = self.W.variant_value(fn, self)
+            try:
+                if len(vs) > 1:          # choose the variant by the types of the arguments
+                    for a, t in zip(args, g.ty[1]):
+                        if a.ty != t and not (a.ty == List(None)):
+                            l = self.to_list(a) if (isinstance(t, tuple) and t[0] == "List") else a
+                            if l.ty != t:
+                                raise Unsupported("no variant of %s for these argument types" % name)
+                return self.apply_fun(g, args)
+            except Unsupported as e:
+                err = e
+        if err is not None:
+            raise err
         raise Unsupported("call of %s outside the fragment" % name)
 
     # ---------------- statements ----------------
@@ -610,6 +787,8 @@ class FuncTranslator:
         if v.ty in ("Macro", CACHE, NONE):
             env2[name] = v
             return body_of(env2)
+        if v.ty == List(None) and name in self.list_hints:
+            v = V("(@nil %s)" % gty(self.list_hints[name]), List(self.list_hints[name]))
         env2[name] = V(gname(name), v.ty)
         return "let %s := %s in\n  %s" % (gname(name), v.term, body_of(env2))
 
@@ -623,10 +802,43 @@ class FuncTranslator:
 
         if _is_doc(s) or isinstance(s, (ast.Pass, ast.Assert)):
             return nxt(env)
+        if isinstance(s, ast.Expr) and isinstance(s.value, ast.Yield):
+            # a generator function: the values yielded so far are the hidden list `$yield`
+            if s.value.value is None or "$yield" not in env:
+                raise Unsupported("yield outside the fragment")
+            e = self.expr(s.value.value, env)
+            c = self.take()
+            acc = env["$yield"]
+            if acc.ty[1] is not None and acc.ty[1] != e.ty:
+                e = self.coerce(e, acc.ty[1])
+            return self.wrap(c, self.bind(env, "$yield", V("(%s ++ [%s])" % (acc.term, e.term), List(e.ty)), nxt), ctx)
+        if isinstance(s, ast.Expr) and isinstance(s.value, ast.Call) and isinstance(s.value.func, ast.Attribute) \
+                and s.value.func.attr == "append" and isinstance(s.value.func.value, ast.Name) \
+                and len(s.value.args) == 1 and not s.value.keywords:
+            x = s.value.func.value.id            # xs.append(e)  ==  xs = xs + [e]  (xs is a local list)
+            if x not in env or not (isinstance(env[x].ty, tuple) and env[x].ty[0] == "List"):
+                raise Unsupported("append on something that is not a local list")
+            e = self.expr(s.value.args[0], env)
+            c = self.take()
+            if env[x].ty[1] is None:
+                self.list_hints[x] = e.ty
+            elif env[x].ty[1] != e.ty:
+                e = self.coerce(e, env[x].ty[1])
+            return self.wrap(c, self.bind(env, x, V("(%s ++ [%s])" % (env[x].term, e.term), List(e.ty)), nxt), ctx)
         if isinstance(s, ast.FunctionDef):
             a = s.args
             if a.vararg or a.kwarg or a.kwonlyargs or a.defaults or a.posonlyargs or s.decorator_list:
                 raise Unsupported("local function signature outside the fragment")
+            # Python closures see LATER assignments of the variables they mention; the inlining uses the values at the
+            # point of definition, so a later assignment of such a variable is outside the fragment
+            free = {x.id for b in s.body for x in ast.walk(b) if isinstance(x, ast.Name)} - {x.arg for x in a.args}
+            for later in rest:
+                for x in ast.walk(later):
+                    if isinstance(x, (ast.Assign, ast.AugAssign, ast.AnnAssign, ast.For)):
+                        for t in (x.targets if isinstance(x, ast.Assign) else [x.target]):
+                            for y in ast.walk(t):
+                                if isinstance(y, ast.Name) and y.id in free:
+                                    raise Unsupported("local function that mentions a variable assigned after its definition")
             env2 = dict(env)
             env2[s.name] = V(None, "Macro", macro=Macro([x.arg for x in a.args], s.body, env))
             return nxt(env2)
@@ -641,7 +853,7 @@ class FuncTranslator:
             if isinstance(t, ast.Name):
                 v = self.expr(s.value, env)
                 c = self.take()
-                return self.wrap(c, self.bind(env, t.id, v, nxt))
+                return self.wrap(c, self.bind(env, t.id, v, nxt), ctx)
             if isinstance(t, ast.Subscript):
                 o = self.expr(t.value, env)
                 if o.ty == CACHE:        # write into the memo cache: remembered, no effect on the result
@@ -665,7 +877,7 @@ class FuncTranslator:
                 for x, a, v in zip(t.elts, tmp, vs):
                     out += "let %s := %s in\n  " % (gname(x.id), a)
                     env2[x.id] = V(gname(x.id), v.ty)
-                return self.wrap(c0, "(" + out + nxt(env2) + ")")
+                return self.wrap(c0, "(" + out + nxt(env2) + ")", ctx)
             raise Unsupported("assignment target outside the fragment")
         if isinstance(s, ast.AugAssign):
             if not isinstance(s.target, ast.Name):
@@ -673,21 +885,22 @@ class FuncTranslator:
             e = ast.BinOp(left=ast.Name(id=s.target.id, ctx=ast.Load()), op=s.op, right=s.value)
             v = self.expr(e, env)
             c = self.take()
-            return self.wrap(c, self.bind(env, s.target.id, v, nxt))
+            return self.wrap(c, self.bind(env, s.target.id, v, nxt), ctx)
         if isinstance(s, ast.If):
             c = self.tobool(self.expr(s.test, env))
             cc = self.take()
             c2 = ctx.with_fall(nxt)
             if c.const is not None:
-                return self.wrap(cc, self.block(s.body if c.const else s.orelse, env, c2))
+                return self.wrap(cc, self.block(s.body if c.const else s.orelse, env, c2), ctx)
             return self.wrap(cc, "(if %s\n  then %s\n  else %s)" % (c.term, self.block(s.body, env, c2),
-                                                                     self.block(s.orelse, env, c2)))
+                                                                     self.block(s.orelse, env, c2)), ctx)
         if isinstance(s, ast.Return):
             if s.value is None:
                 raise Unsupported("return without a value")
             v = self.expr(s.value, env)
-            v.safe = self.take() or "true"
-            return ctx.ret(v)
+            c = self.take()
+            v.safe = c.cond or "true"
+            return self.wrap(Taken("", c.binds), ctx.ret(v), ctx)
         if isinstance(s, ast.Raise):
             self.option_mode_needed()
             return ctx.ret(V("None", "Raise"))
@@ -708,10 +921,20 @@ class FuncTranslator:
             raise _NeedOption()
 
     def for_loop(self, s, env, ctx, nxt):
-        if s.orelse or not isinstance(s.target, ast.Name):
-            raise Unsupported("for loop with else / with a target that is not a name")
+        if s.orelse:
+            raise Unsupported("for loop with else")
+        if isinstance(s.target, ast.Name):
+            tnames = [s.target.id]
+        elif isinstance(s.target, ast.Tuple) and len(s.target.elts) == 2 and all(
+                isinstance(x, ast.Name) for x in s.target.elts):
+            tnames = [x.id for x in s.target.elts]
+        else:
+            raise Unsupported("for loop target outside the fragment")
         it = self.to_list(self.expr(s.iter, env))
         c_it = self.take()
+        et = it.ty[1]
+        if len(tnames) == 2 and not (isinstance(et, tuple) and et[0] == "Tup"):
+            raise Unsupported("tuple target over a sequence that does not hold pairs")
         assigned = set()
         for n in _walk_no_defs(s.body):
             if isinstance(n, (ast.Assign, ast.AugAssign, ast.AnnAssign)):
@@ -719,53 +942,94 @@ class FuncTranslator:
                     for x in ast.walk(t):
                         if isinstance(x, ast.Name):
                             assigned.add(x.id)
-        svars = [x for x in sorted(assigned) if x in env and env[x].term is not None and x != s.target.id]
+            if isinstance(n, ast.Yield):
+                assigned.add("$yield")
+            if isinstance(n, ast.Call) and isinstance(n.func, ast.Attribute) and n.func.attr == "append" \
+                    and isinstance(n.func.value, ast.Name):
+                assigned.add(n.func.value.id)
+        # state variables in the order in which the function first assigned them (renaming keeps the order)
+        svars = [x for x in env if not (x.startswith("$") and x != "$yield") and x in assigned
+                 and env[x].term is not None and x not in tnames]
         has_ret = any(isinstance(n, (ast.Return, ast.Raise)) for n in _walk_no_defs(s.body))
         has_brk = any(isinstance(n, ast.Break) for n in _walk_no_defs(s.body, stop_loops=True))
+        if not (svars or has_ret or has_brk):
+            return self.wrap(c_it, nxt(env), ctx)
         k = self._fresh()
-        stop, retv = "stop%d" % k, "ret%d" % k
-        # state of the fold: [stop flag (only when the body can `break`)], [pending return value (when it can
-        # `return`): Some r = the function has returned r], the accumulator variables
-        comps = ([stop] if has_brk else []) + ([retv] if has_ret else []) + [gname(x) for x in svars]
-        if not comps:
-            return self.wrap(c_it, nxt(env))
+        if self.safety:
+            # the `ok` component is only needed when the body can violate an obligation: try with it, and
+            # translate again without it when it was never used
+            used = []
+            probe = Ctx(ctx.ret, ctx.fall, ctx.brk, ctx.cont, ctx.rtype, fail=lambda: "$FAIL%d$" % k)
+            out = self._for_loop(s, env, probe, nxt, it, c_it, et, tnames, svars, has_ret, has_brk, True, k, used)
+            if used:
+                return out.replace("$FAIL%d$" % k, ctx.fail())
+        return self._for_loop(s, env, ctx, nxt, it, c_it, et, tnames, svars, has_ret, has_brk, False, k, [])
 
-        def pack(st=None, rt=None):
-            vals = ([st or stop] if has_brk else []) + ([rt or retv] if has_ret else []) + [gname(x) for x in svars]
+    def _for_loop(self, s, env, ctx, nxt, it, c_it, et, tnames, svars, has_ret, has_brk, safe, k, used):
+        okv, stop, retv = "ok%d" % k, "stop%d" % k, "ret%d" % k
+        # state of the fold: [safety mode: no obligation violated so far], [stop flag (only when the body can
+        # `break`)], [pending return value (when it can `return`): Some r = the function has returned r], the
+        # accumulator variables
+
+        def pack(st=None, rt=None, ok=None):
+            vals = ([ok or okv] if safe else []) + ([st or stop] if has_brk else []) + \
+                   ([rt or retv] if has_ret else []) + [gname(x) for x in svars]
             return vals[0] if len(vals) == 1 else "(" + ", ".join(vals) + ")"
+
+        comps = ([okv] if safe else []) + ([stop] if has_brk else []) + ([retv] if has_ret else []) + \
+                [gname(x) for x in svars]
 
         def l_ret(v):
             inner = ctx.ret(v)     # what the enclosing context makes of `return v`
             return pack(None, "(Some (%s))" % inner)
 
         env_b = dict(env)
-        env_b[s.target.id] = V(gname(s.target.id), it.ty[1])
-        ctypes = (["bool"] if has_brk else []) + (["(option %s)" % ctx.rtype] if has_ret else []) + \
-                 [gty(env[x].ty) for x in svars]
+        if len(tnames) == 1:
+            env_b[tnames[0]] = V(gname(tnames[0]), et)
+            tpat = gname(tnames[0])
+            tbind = ""
+        else:
+            tpat = "it%d" % k
+            tbind = "let '(%s, %s) := %s in " % (gname(tnames[0]), gname(tnames[1]), tpat)
+            env_b[tnames[0]] = V(gname(tnames[0]), et[1][0])
+            env_b[tnames[1]] = V(gname(tnames[1]), et[1][1])
+        for x in svars:
+            if env[x].ty == List(None):
+                # learn the element type from the body (its first append), then give up on this pass: translate()
+                # starts again with the hint
+                try:
+                    self.block(s.body, env_b, Ctx(lambda v: "_", lambda e: "_", brk=lambda e: "_",
+                                                  cont=lambda e: "_", rtype="_", fail=lambda: "_"))
+                except Unsupported:
+                    pass
+                raise Unsupported("a list that is filled in a loop but whose element type is not known yet")
+        ctypes = (["bool"] if safe else []) + (["bool"] if has_brk else []) + \
+                 (["(option %s)" % ctx.rtype] if has_ret else []) + [gty(env[x].ty) for x in svars]
         stype = ctypes[0] if len(ctypes) == 1 else "(" + " * ".join(ctypes) + ")%type"
-        lctx = Ctx(l_ret, lambda e: pack(), brk=lambda e: pack("true"), cont=lambda e: pack(), rtype=stype)
-        self.no_div += 1
-        try:
-            body = self.block(s.body, env_b, lctx)
-        finally:
-            self.no_div -= 1
+        lctx = Ctx(l_ret, lambda e: pack(), brk=lambda e: pack("true"), cont=lambda e: pack(), rtype=stype,
+                   fail=lambda: (used.append(1), pack(None, None, "false"))[1])
+        body = self.block(s.body, env_b, lctx)
         pat = pack()
         stv = comps[0] if len(comps) == 1 else "st%d" % k
         if has_ret:
             body = "match %s with Some _ => %s | None => %s end" % (retv, stv, body)
         if has_brk:
             body = "if %s then %s else %s" % (stop, stv, body)
+        if safe:
+            body = "if %s then %s else %s" % (okv, body, stv)
         if len(comps) == 1:
-            head = "fun (%s : %s) %s => " % (stv, stype, gname(s.target.id))
+            head = "fun (%s : %s) %s => %s" % (stv, stype, tpat, tbind)
         else:
-            head = "fun (%s : %s) %s => let '%s := %s in " % (stv, stype, gname(s.target.id), pat, stv)
-        init = pack("false", "(@None %s)" % ctx.rtype)
+            head = "fun (%s : %s) %s => %slet '%s := %s in " % (stv, stype, tpat, tbind, pat, stv)
+        init = pack("false", "(@None %s)" % ctx.rtype, "true")
         after = nxt(env)
         if has_ret:
             after = "match %s with Some r%d => r%d | None => %s end" % (retv, k, k, after)
+        if safe:
+            after = "(if %s then %s else %s)" % (okv, after, ctx.fail())
         lhs = pat if len(comps) == 1 else "'" + pat
         return self.wrap(c_it, "(let %s := fold_left (%s\n    %s) %s %s in\n  %s)" % (
-            lhs, head, body, it.term, init, after))
+            lhs, head, body, it.term, init, after), ctx)
 
 
 class _NeedOption(Exception):
@@ -781,7 +1045,15 @@ FILES = {
     "POS": "pabutools/election/satisfaction/positionalsatisfaction.py",
     "SATM": "pabutools/election/satisfaction/satisfactionmeasure.py",
     "TIE": "pabutools/tiebreaking.py",
+    "INS": "pabutools/election/instance.py",
+    "UTL": "pabutools/utils.py",
+    "VSAT": "pabutools/analysis/votersatisfaction.py",
+    "PPR": "pabutools/analysis/profileproperties.py",
+    "IPR": "pabutools/analysis/instanceproperties.py",
 }
+# which property a source file belongs to (gen_untranslated_<group>)
+GROUP = {"ADD": "sat", "FUN": "sat", "POS": "sat", "SATM": "sat", "TIE": "tie", "INS": "inst", "UTL": "stats",
+         "VSAT": "stats", "PPR": "stats", "IPR": "stats"}
 
 F_ADD = Fun([INST, PROFILE, BALLOT, PROJ, DICT], Q)
 F_FUN = Fun([INST, PROFILE, BALLOT, List(PROJ)], Q)
@@ -811,6 +1083,34 @@ for _n in ("cc_sat_func_app", "cc_sat_func_card"):
     FUNCS[_n] = ("FUN", F_FUN[1], Q)
 FUNCS["borda_sat_func"] = ("POS", F_POS[1], Q)
 FUNCS["refuse_to_break_ties"] = ("TIE", F_KEY[1], Q)
+# --- instance.py / utils.py (C15gen) ---
+FUNCS["total_cost"] = ("INS", [List(PROJ)], Q)
+FUNCS["max_budget_allocation_cardinality"] = ("INS", [List(PROJ), Q], Q)
+FUNCS["powerset"] = ("UTL", [List(PROJ)], List(List(PROJ)))
+# --- utils.py / analysis (C18gen); a 4th component names the source function when it differs (variants by type) ---
+FUNCS["mean_generator"] = ("UTL", [List(Tup(Q, Q))], Q)                  # a stream of (value, multiplicity)
+FUNCS["mean_generator_plain"] = ("UTL", [List(Q)], Q, "mean_generator")   # a stream of plain numbers
+FUNCS["gini_coefficient"] = ("UTL", [List(Q)], Q)
+FUNCS["avg_satisfaction"] = ("VSAT", [INST, PROFILE, List(PROJ), SATCLASS], Q)
+FUNCS["percent_non_empty_handed"] = ("VSAT", [INST, PROFILE, List(PROJ)], Q)
+FUNCS["percent_positive_satisfaction"] = ("VSAT", [PROFILE, List(PROJ), SATCLASS], Q)
+FUNCS["gini_coefficient_of_satisfaction"] = ("VSAT", [INST, PROFILE, List(PROJ), SATCLASS, B], Q)
+FUNCS["satisfaction_histogram"] = ("VSAT", [INST, PROFILE, List(PROJ), SATCLASS, Q, Q], List(Q))
+for _n in ("avg_ballot_length", "median_ballot_length", "avg_ballot_cost", "median_ballot_cost", "avg_approval_score",
+           "median_approval_score", "avg_total_score", "median_total_score"):
+    FUNCS[_n] = ("PPR", [INST, PROFILE], Q)
+for _n in ("sum_project_cost", "funding_scarcity", "avg_project_cost", "median_project_cost", "std_dev_project_cost"):
+    FUNCS[_n] = ("IPR", [INST], Q)
+# float-only statistics (numpy arrays filled by index, np.std, math.ceil): correspondence only; they are attempted
+# all the same and listed in gen_correspondence_only when they fall outside the fragment
+EXPECTED_OUT = ("satisfaction_histogram", "median_ballot_length", "median_ballot_cost", "std_dev_project_cost")
+
+
+def _fsrc(name):
+    spec = FUNCS[name]
+    return spec[3] if len(spec) > 3 else name
+
+
 # numpy-float measures: outside the statement of C10 (correspondence only); their wiring is still recorded
 OUT_OF_SCOPE = ("add_cost_sqrt_sat_func", "additive_cost_log_sat_func", "cost_sqrt_sat_func", "cost_log_sat_func")
 
@@ -833,7 +1133,14 @@ METHODS = {
     # the same two methods when a key function (element -> project) is handed over; translated for elements = projects
     ("TieBreakingRule", "order_key"): ([INST, APROFILE, List(PROJ), Fun([PROJ], PROJ)], List(PROJ), True, False, "order"),
     ("TieBreakingRule", "untie_key"): ([INST, APROFILE, List(PROJ), Fun([PROJ], PROJ)], Opt(PROJ), True, False, "untie"),
+    # Instance: `self` is the instance itself (a set of projects with a budget limit)
+    ("Instance", "is_feasible"): ([List(PROJ)], B, False, False),
+    ("Instance", "is_exhaustive"): ([List(PROJ), NONE_ARG], B, False, False),
+    ("Instance", "is_exhaustive_avail"): ([List(PROJ), List(PROJ)], B, False, False, "is_exhaustive"),
+    ("Instance", "is_trivial"): ([], B, False, False),
+    ("Instance", "budget_allocations"): ([], List(List(PROJ)), False, False),
 }
+SELF_TYPES = {"Instance": INST}      # classes whose `self` is a first-class value of the fragment
 
 
 def _msrc(key):
@@ -848,6 +1155,9 @@ class Def:
         self.name, self.comment = name, comment
         self.params, self.extras, self.ret, self.body, self.error = [], {}, None, None, None
         self.safe_body = None
+        self.safe_trivial = False
+        self.raises = False       # translated in option mode (the function can `raise`)
+        self.group = "sat"
         self.ptypes = []
 
     def fun_type(self):
@@ -871,6 +1181,7 @@ class World:
     def __init__(self, repo):
         self.repo = repo
         self.trees, self.classes, self.funcs, self.errors = {}, {}, {}, []
+        self.lambdas = {}
         for k, rel in FILES.items():
             try:
                 path = os.path.join(repo, rel)
@@ -883,6 +1194,9 @@ class World:
                     self.classes[n.name] = (k, n)
                 elif isinstance(n, ast.FunctionDef):
                     self.funcs[n.name] = (k, n)
+                elif isinstance(n, ast.Assign) and len(n.targets) == 1 and isinstance(n.targets[0], ast.Name) \
+                        and isinstance(n.value, ast.Lambda):
+                    self.lambdas[n.targets[0].id] = n.value
         self.defs = {}          # name -> Def (memo), insertion order = emission order (dependencies first)
         self.busy = set()
 
@@ -946,13 +1260,15 @@ class World:
         return "(%s %s)" % (d.name, ex) if ex else d.name
 
     def func_def(self, fname):
-        k, ptypes, ret = FUNCS[fname]
+        k, ptypes, ret = FUNCS[fname][:3]
+        src = _fsrc(fname)
 
         def build(d):
-            kk, node = self.funcs.get(fname, (None, None))
+            d.group = GROUP[k]
+            kk, node = self.funcs.get(src, (None, None))
             if node is None or kk != k:
-                raise Unsupported("function %s not found in %s" % (fname, FILES[k]))
-            d.comment = self.where(k, node, fname) + "\n" + ast.unparse(_strip_docstrings(node))
+                raise Unsupported("function %s not found in %s" % (src, FILES[k]))
+            d.comment = self.where(k, node, src) + "\n" + ast.unparse(_strip_docstrings(node))
             self.translate(d, node, list(ptypes), ret, None, {}, safe=True)
         return self.get("gen_" + fname, build)
 
@@ -962,12 +1278,13 @@ class World:
 
         def build(d):
             k, node = self.method_node(cls, src)
+            d.group = GROUP.get(self.classes.get(cls, ("ADD", None))[0], "sat")
             if node is None:
                 raise Unsupported("method %s.%s not found" % (cls, src))
             d.comment = self.where(k, node, cls + "." + src) + "\n" + ast.unparse(_strip_docstrings(node))
             fields = FIELDS.get(cls, {}) if use_fields else {}
             try:
-                self.translate(d, node, list(ptypes), ret, cls, fields)
+                self.translate(d, node, list(ptypes), ret, cls, fields, safe=cls in SELF_TYPES)
             except Unsupported as e:
                 if not opaque:
                     raise
@@ -1016,14 +1333,23 @@ class World:
             params = params[1:]
         if len(params) != len(ptypes):
             raise Unsupported("expected %d parameters, found %d" % (len(ptypes), len(params)))
-        for dflt in a.defaults:
-            if not (isinstance(dflt, ast.Constant) and dflt.value is None):
-                raise Unsupported("parameter default other than None")
+        for dflt in a.defaults:       # defaults are not used: every translated call passes the argument, or the
+            if not isinstance(dflt, (ast.Constant, ast.Name, ast.Lambda)):   # parameter is fixed to its default
+                raise Unsupported("parameter default outside the fragment")
         body = node.body if isinstance(node, ast.FunctionDef) else [ast.Return(value=node.body)]
-        for mode in (False, True):
+        is_gen = any(isinstance(x, (ast.Yield, ast.YieldFrom)) for x in _walk_no_defs(body))
+        hints = {}
+        mode = False          # option mode: entered when the body turns out to contain a `raise`
+        for attempt in range(8):
             tr = FuncTranslator(self, self_cls)
             tr.option_mode = mode
+            tr.list_hints = dict(hints)
             env, gparams, pts = {}, [], []
+            if self_cls in SELF_TYPES:
+                env["self"] = V("v_self", SELF_TYPES[self_cls])
+                env["$inst"] = env["self"]
+                gparams.append(("v_self", gty(SELF_TYPES[self_cls])))
+                pts.append(SELF_TYPES[self_cls])
             if self_cls is not None:
                 sf = {}
                 for f in sorted(fields):
@@ -1036,9 +1362,14 @@ class World:
                 env["$self"] = sf
                 if "instance" in sf:
                     env["$inst"] = sf["instance"]
+            dflt_of = dict(zip(params[len(params) - len(a.defaults):], a.defaults)) if a.defaults else {}
             for p, t in zip(params, ptypes):
-                if t == NONE_ARG:
-                    env[p] = V("tt", NONE, const=None)
+                if t == NONE_ARG:      # the argument is omitted: the parameter has its default
+                    dv = dflt_of.get(p)
+                    if dv is None or (isinstance(dv, ast.Constant) and dv.value is None):
+                        env[p] = V("tt", NONE, const=None)
+                    else:
+                        env[p] = tr.expr(dv, {})
                     continue
                 env[p] = V(gname(p), t)
                 gparams.append((gname(p), gty(t)))
@@ -1061,16 +1392,49 @@ class World:
                 return "(Some %s)" % c.term if mode else c.term
 
             def top_fall(env2):
+                if is_gen:         # a generator function: its value is the list of what it yielded
+                    v = env2["$yield"]
+                    if v.ty == List(None):
+                        v = tr.coerce(v, ret)
+                    v.safe = "true"
+                    return top_ret(v)
                 raise Unsupported("the function can end without `return` (returns None)")
 
+            body2 = body
+            if is_gen:
+                if any(isinstance(x, (ast.Return, ast.YieldFrom)) for x in _walk_no_defs(body)):
+                    raise Unsupported("generator function with return / yield from")
+                env["$yield"] = V("yielded", List(hints.get("$yield")))
             try:
                 rt = gty(Opt(ret) if (mode and not (isinstance(ret, tuple) and ret[0] == "Opt")) else ret)
-                body_s = tr.block(body, env, Ctx(top_ret, top_fall, rtype=rt))
+                pre = ""
+                if is_gen:
+                    if "$yield" not in hints:      # first pass: learn the element type
+                        tr.list_hints["$yield"] = ret[1] if isinstance(ret, tuple) and ret[0] == "List" else None
+                        hints = dict(tr.list_hints)
+                        env["$yield"] = V("yielded", List(hints["$yield"]))
+                    pre = "let yielded := (@nil %s) in\n  " % gty(hints["$yield"])
+                body_s = pre + tr.block(body2, env, Ctx(top_ret, top_fall, rtype=rt))
                 if safe:
-                    tr.safety, tr.pending, tr.guards, tr.counter = True, [], [], 0
-                    d.safe_body = tr.block(body, env, Ctx(top_ret, top_fall, rtype="bool"))
+                    tr.safety, tr.pending, tr.guards, tr.counter, tr.binds, tr.ob_count = True, [], [], 0, [], 0
+                    d.safe_body = pre + tr.block(body2, env, Ctx(top_ret, top_fall, rtype="bool"))
+                    d.safe_trivial = tr.ob_count == 0
+                    if d.safe_trivial:       # no division, no min/max of a possibly empty sequence, no such callee
+                        d.safe_body = "true"
             except _NeedOption:
+                if mode:
+                    raise Unsupported("raise outside the fragment")
+                mode = True
                 continue
+            except Unsupported:
+                if tr.list_hints != hints:       # an `xs = []` whose element type was learnt later: once more
+                    hints = dict(tr.list_hints)
+                    continue
+                raise
+            if tr.list_hints != hints:
+                hints = dict(tr.list_hints)
+                continue
+            d.raises = mode
             d.params, d.ptypes = gparams, pts
             d.ret = Opt(ret) if mode else ret
             d.extras = dict(tr.extras)
@@ -1080,10 +1444,44 @@ class World:
 
     # ---------------- what FuncTranslator asks the world ----------------
     def global_value(self, name, tr):
-        if name in FUNCS:
+        if name in FUNCS and _fsrc(name) == name:
             d = self.need(self.func_def(name), tr)
-            return V(self.applied(d), d.fun_type())
+            v = V(self.applied(d), d.fun_type())
+            v.defn = d
+            return v
         return None
+
+    def variants(self, name):
+        """the translated variants (by argument type) of the source function `name`, first the one of that name"""
+        return [f for f in FUNCS if _fsrc(f) == name]
+
+    def variant_value(self, fname, tr):
+        d = self.need(self.func_def(fname), tr)
+        v = V(self.applied(d), d.fun_type())
+        v.defn = d
+        return v
+
+    def helper_macro(self, name):
+        """a module-level function (or `name = lambda ...`) of the translated files that is not itself a target:
+        inlined at its uses like a local function (single `return`, no effects)"""
+        if name in FUNCS:
+            return None
+        if name in self.funcs:
+            k, node = self.funcs[name]
+            a = node.args
+            if a.vararg or a.kwarg or a.kwonlyargs or a.defaults or a.posonlyargs or node.decorator_list:
+                return None
+            return V(None, "Macro", macro=Macro([x.arg for x in a.args], node.body, {}))
+        if name in self.lambdas:
+            n = self.lambdas[name]
+            a = n.args
+            if a.vararg or a.kwarg or a.kwonlyargs or a.defaults or a.posonlyargs:
+                return None
+            return V(None, "Macro", macro=Macro([x.arg for x in a.args], n.body, {}))
+        return None
+
+    def sat_class_names(self):
+        return [c for c, (k, n) in self.classes.items() if k in ("ADD", "FUN", "POS") and c not in SAT_BASES]
 
     def call_method(self, tr, env, mname, call):
         cls = getattr(tr, "dyn_cls", None) or tr.self_cls
@@ -1102,6 +1500,8 @@ class World:
                 continue
             d = self.need(self.method_def(*key), tr)
             args = []
+            if owner in SELF_TYPES:
+                args.append(env["self"])
             if use_fields:
                 for f in sorted(FIELDS.get(owner, {})):
                     if FIELDS[owner][f] != CACHE:
@@ -1109,6 +1509,13 @@ class World:
             for x, t in zip(cargs, ptypes):
                 if t != NONE_ARG:
                     args.append(tr.coerce(x, t))
+            if d.safe_body is not None and not d.safe_trivial:
+                if tr.no_div:
+                    raise Unsupported("call of self.%s (which can raise) inside a comprehension" % mname)
+                ob = "(%s_safe %s %s)" % (d.name, " ".join(sorted(d.extras)), " ".join(x.term for x in args))
+                if tr.guards:
+                    ob = "(negb (%s) || %s)" % (" && ".join(tr.guards), ob)
+                tr.pending.append(ob)
             return V("(%s %s)" % (self.applied(d), " ".join(x.term for x in args)), d.ret)
         raise Unsupported(last)
 
@@ -1309,6 +1716,8 @@ class World:
                 raise Unsupported("%s.__init__ calls %s.__init__, not its base" % (cls, callee))
             fields = self.sym_init(callee, [tr.expr(x, env0) for x in call.args[1:]], tr, cls)
             md = self.need(self.method_def(base, m), tr)
+            if md.ret != mret:
+                raise Unsupported("%s.%s returns a %r where %r is expected" % (base, m, md.ret, mret))
             args = []
             for f in sorted(FIELDS[base]):
                 if FIELDS[base][f] == CACHE:
@@ -1339,6 +1748,7 @@ class World:
         call = n.value
 
         def build_key(d):
+            d.group = "tie"
             if len(call.args) != 1 or call.keywords:
                 raise Unsupported("TieBreakingRule(...) with an unexpected argument list")
             a = call.args[0]
@@ -1349,6 +1759,9 @@ class World:
                 kk, fnode = self.funcs[a.id]      # a key written as a named module-level function
                 d.comment += "\n" + self.where(kk, fnode, a.id) + "\n" + ast.unparse(_strip_docstrings(fnode))
                 self.translate(d, fnode, list(F_KEY[1]), Q, None, {}, safe=True)
+            elif isinstance(a, ast.Name) and a.id in self.lambdas:
+                d.comment += "\n%s = %s" % (a.id, ast.unparse(self.lambdas[a.id]))
+                self.translate(d, self.lambdas[a.id], list(F_KEY[1]), Q, None, {}, safe=True)
             elif isinstance(a, ast.Name) and a.id in FUNCS:
                 fd = self.func_def(a.id)
                 if fd.error:
@@ -1364,11 +1777,14 @@ class World:
             mp, mret = METHODS[("TieBreakingRule", m)][:2]
 
             def build(d, m=m, mret=mret):
+                d.group = "tie"
                 d.comment = "%s: %s.%s(instance, profile, projects)" % (self.where("TIE", n, name), name, m)
                 tr = FuncTranslator(self, "TieBreakingRule")
                 k2 = self.need(kd, tr)
                 fields = self.sym_init("TieBreakingRule", [V(self.applied(k2), k2.fun_type())], tr, "TieBreakingRule")
                 md = self.need(self.method_def("TieBreakingRule", m), tr)
+                if md.ret != mret:
+                    raise Unsupported("TieBreakingRule.%s returns a %r where %r is expected" % (m, md.ret, mret))
                 if "func" not in fields:
                     raise Unsupported("TieBreakingRule.__init__ does not set self.func")
                 d.params = [("v_instance", "py_inst"), ("v_profile", "py_aprofile"), ("v_projects", "(list py_proj)")]
@@ -1387,10 +1803,16 @@ class World:
         for e in self.errors:
             L.append("(* SOURCE FILE NOT READABLE: %s *)" % _comment_safe(e))
         failed = []
+        by_group = {"sat": [], "tie": [], "inst": [], "stats": []}
+        corr_only = []
         for d in self.defs.values():
             L.append("(* " + _comment_safe(d.comment) + " *)")
             if d.error is not None:
-                failed.append(d.name)
+                if d.name[4:] in EXPECTED_OUT:
+                    corr_only.append(d.name)       # float-only statistic: correspondence only, as expected
+                else:
+                    failed.append(d.name)
+                    by_group.setdefault(d.group, []).append(d.name)
                 reason = d.error.replace('"', "'").replace("\n", " ")
                 reason = "".join(ch if ch.isascii() else "?" for ch in reason)
                 L.append('Definition %s : py_untranslated := Untranslated "%s".' % (d.name, reason[:300]))
@@ -1399,6 +1821,11 @@ class World:
                 ps += "".join(" (%s : %s)" % p for p in d.params)
                 L.append("Definition %s%s : %s :=\n  %s." % (d.name, ps, gty(d.ret), d.body))
                 L.append("Global Hint Unfold %s : pygen." % d.name)
+                cl = [x[4:] for x in sorted(d.extras) if x.startswith("cls_")]
+                if cl:
+                    L.append("(* the satisfaction classes the function names (its cls_ parameters, in that order) *)")
+                    L.append("Definition %s_classes : list string := [%s]." % (
+                        d.name, "; ".join(coq_string(x) for x in cl)))
                 if d.safe_body is not None:
                     L.append("(* no ZeroDivisionError: every frac(a, b) on the executed path has b != 0 *)")
                     L.append("Definition %s_safe%s : bool :=\n  %s." % (d.name, ps, d.safe_body))
@@ -1410,6 +1837,7 @@ class World:
             w = self.wires[cls]
             if isinstance(w, str):
                 failed.append("gen_wiring_" + cls)
+                by_group["sat"].append("gen_wiring_" + cls)
                 L.append('Definition gen_wiring_%s : py_untranslated := Untranslated "%s".' % (
                     cls, w.replace('"', "'")[:300]))
                 continue
@@ -1422,6 +1850,12 @@ class World:
         L.append("Definition gen_wiring : list (string * list py_wire) :=\n  [%s]." % ";\n   ".join(ws))
         L.append("Definition gen_tie_rules : list string := [%s]." % "; ".join(coq_string(x) for x in self.tie_rules))
         L.append("Definition gen_untranslated : list string := [%s]." % "; ".join(coq_string(x) for x in failed))
+        for g in ("sat", "tie", "inst", "stats"):
+            L.append("Definition gen_untranslated_%s : list string := [%s]." % (
+                g, "; ".join(coq_string(x) for x in by_group[g])))
+        L.append("(* float-only statistics that are outside the fragment (correspondence only) *)")
+        L.append("Definition gen_correspondence_only : list string := [%s]." % "; ".join(
+            coq_string(x) for x in corr_only))
         return "\n".join(L) + "\n"
 
 
